@@ -6,11 +6,13 @@ does not parse.
   m.clean P | m.num S | m.loc S       (path.Clean, strconv.ParseInt/ParseUint, blockdigest locator parsing)
   a.fs H | a.pdh H | a.esc N                                           (collection fs, PDH)
   p.seg H | p.lr sizes s n | p.fb sizes s | p.esc N                    (Python range mapper)
+  p.rr w1;..;wn s n                  (replace_range for each write start,size,k,off in turn, then locators_and_ranges)
 -/
 import ArvVerif.Base.MD5
 import ArvVerif.Base.Loop
 import ArvVerif.Model.C10_Py
 import ArvVerif.Model.C10_Digest
+import ArvVerif.Model.C10_PyReplace
 open ArvVerif ArvVerif.C10
 
 def unhex? (s : String) : Option Bytes :=
@@ -164,6 +166,25 @@ def step (line : String) : String :=
       let blocks := sizes.map fun s => (⟨[], s⟩ : Loc)
       showFB "none" "exc" (pyFirstBlock (pyRangesFrom 0 blocks) start)
     | _, _ => "bad-op"
+  | ["p.rr", ws, st, sz] =>
+    let writes : Option (List (List Nat)) := if ws == "-" then some [] else (ws.splitOn ";").mapM parseNatList
+    match writes, st.toNat?, sz.toNat? with
+    | some wl, some start, some size =>
+      let run : Option (Res (List PyR)) := wl.foldl (fun acc w =>
+        match acc, w with
+        | some (.ok rs), [a, b, k, o] => some (pyReplaceRange rs a b s!"b{k}".toUTF8.toList o)
+        | some (.ok _), _ => none
+        | other, _ => other) (some (.ok []))
+      match run with
+      | some (.ok rs) =>
+        match pyLocatorsAndRangesO rs start size with
+        | .ok segs =>
+          let lst := joinOr "," (rs.map fun r => s!"{rawStr r.loc}:{r.start}:{r.size}:{r.off}")
+          s!"ok {lst} " ++ joinOr "," (segs.map fun s => s!"{rawStr s.loc}:{s.off}:{s.len}")
+        | _ => "exc"
+      | some _ => "exc"
+      | none => "bad-op"
+    | _, _, _ => "bad-op"
   | ["p.esc", n] =>
     match unhex? n with
     | some nm => hx (pyEscape nm)
